@@ -56,7 +56,9 @@ func VerifP_C15_Validate_Exact(mode int) {
 	inner := &schema.BodySchema{Attributes: map[string]*schema.AttributeSchema{
 		"a": {Constraint: schema.LiteralType{Type: cty.String}, IsRequired: req, IsOptional: !req, IsDeprecated: depA},
 	}}
+	hasDyn := mode == 0 && verifChoice("hasdynamic", 2) == 1
 	bs := &schema.BodySchema{
+		Extensions: &schema.BodyExtensions{DynamicBlocks: true},
 		Attributes: inner.Attributes,
 		Blocks: map[string]*schema.BlockSchema{
 			"b":   {Body: schema.NewBodySchema(), MinItems: uint64(minB), MaxItems: uint64(maxB), IsDeprecated: depB},
@@ -77,6 +79,10 @@ func VerifP_C15_Validate_Exact(mode int) {
 	}
 	for k := 0; k < nb; k++ {
 		src += "b {\n}\n"
+	}
+	if hasDyn {
+		// a dynamic block of type "b" stands for any number of "b" blocks
+		src += "dynamic \"b\" {\n  for_each = [ 1 ]\n  content {\n  }\n}\n"
 	}
 	innerHasA := false
 	unknownAttrs, unknownBlocks := 0, 0
@@ -109,15 +115,17 @@ func VerifP_C15_Validate_Exact(mode int) {
 			unknownBlocks++
 		}
 	}
-	f := verifParseHCL(src, vf)
-	pc := &PathContext{Schema: bs, Files: map[string]*hcl.File{vf: f}, Validators: verifValidators()}
+	// the body under test is the body of a block: body extensions (dynamic blocks) apply to block bodies
+	top := &schema.BodySchema{Blocks: map[string]*schema.BlockSchema{"wrap": {Body: bs}}}
+	f := verifParseHCL("wrap {\n"+src+"}\n", vf)
+	pc := &PathContext{Schema: top, Files: map[string]*hcl.File{vf: f}, Validators: verifValidators()}
 	d := verifDecoderFromCtx(pc)
 	verifFreeze(pc)
 	diags, err := d.ValidateFile(context.Background(), vf)
 	verifAssert(err == nil, "C15:validate-no-error")
 
 	verifAssert(verifCountDiags(diags, "Too many blocks") == verifB2I(verifAnd(maxB != 0, nb > maxB)), "C15:too-many-blocks-exact")
-	verifAssert(verifCountDiags(diags, "Too few blocks") == verifB2I(verifAnd(minB != 0, nb < minB)), "C15:too-few-blocks-exact")
+	verifAssert(verifCountDiags(diags, "Too few blocks") == verifB2I(verifAnd(verifAnd(minB != 0, nb < minB), !hasDyn)), "C15:too-few-blocks-exact")
 	missing := verifB2I(verifAnd(req, !hasA))
 	if hasLbl {
 		missing += verifB2I(verifAnd(req, !innerHasA))
